@@ -101,7 +101,10 @@ def run(prop: str, tier: str, replay: str = None) -> int:
                 case_by_id[c["id"]] = c
         judge(rep, prop, verdicts, case_by_id)
         what = ("(ABI, clobber subset, clobbers_flags, align_stack, preserve_caller_saved, "
-                "scratch count, reads, leaf, spelling of the register names)" if prop == "C16" else
+                "scratch count up to and beyond the end of the scratch pool, reads, leaf, spelling of "
+                "the register names; histories: ONE patch object at 2-3 sites of a single real "
+                "RewritingContext.apply() via insert_at / AllBlocksScope / AllFunctionsScope with "
+                "equal and mixed leaf-ness, every clause at every site)" if prop == "C16" else
                 "(ABI, argument list by count/kind/value class, calling convention, "
                 "constraint overrides, leaf; histories: ONE CallPatch object at 2-3 insertion sites, "
                 "directly and through a real RewritingContext, with context dependent callables)")
